@@ -1,7 +1,3 @@
-import os as _os
-# development aid only: C20_KNOWN=<file> lets the engines read another known-findings list
-_dev = {"VERIF_KNOWN": _os.environ["C20_KNOWN"]} if _os.environ.get("C20_KNOWN") else {}
-
 PROP = dict(
     level="exploration",
     design_ref="DESIGN.md §3 C20",
@@ -37,7 +33,7 @@ PROP = dict(
          "non-trivial likewise. bytes: arbitrary bytes / token soup / valid encodings (1-2) untouched, truncated, with body-length off "
          "by one, or with 1-3 byte/line mutations, x reader variant; non-trivial = the input starts with a complete well-formed header "
          "line (the parser gets past the first header line). limits: component x decoder kind x (limit + delta); non-trivial = within "
-         "16 bytes of the limit with a defined expectation. corpus: 44 committed inputs x 4 decoder/reader variants. Distinct by hash "
+         "16 bytes of the limit with a defined expectation. corpus: 48 committed inputs x 4 decoder/reader variants. Distinct by hash "
          "of the case.",
     assumptions=["reference rendering and expected-value model written from the doc comment of asserts.Decode; cross-checked on every round-trip case",
                  "valid domain: header names and map keys matching the documented name syntax, valid UTF-8 strings and bodies, non-empty lists/maps, "
@@ -46,10 +42,10 @@ PROP = dict(
                  "limits of the form buf*2^k for stressed decoders (the only ones the doubling read-ahead enforces exactly); sizes limit-1 and limit "
                  "of headers/signature are not judged (whether the delimiter counts is unspecified)"],
     engines=[
-        gt("roundtrip", "asserts", "TestVerifC20RoundTrip", dict(checks=2500, shards=2), dict(checks=40000, shards=6), env=_dev),
-        gt("headers", "asserts", "TestVerifC20Headers", dict(checks=20000, shards=1), dict(checks=150000, shards=3), env=_dev),
-        gt("bytes", "asserts", "TestVerifC20Bytes", dict(checks=5000, shards=4), dict(checks=100000, shards=6), env=_dev),
-        gt("limits", "asserts", "TestVerifC20Limits", dict(checks=500, shards=1), dict(checks=10000, shards=1), env=_dev),
-        gt("corpus", "asserts", "TestVerifC20Corpus", dict(shards=1), dict(shards=1), rapid=False, env=_dev),
+        gt("roundtrip", "asserts", "TestVerifC20RoundTrip", dict(checks=2500, shards=2), dict(checks=40000, shards=6)),
+        gt("headers", "asserts", "TestVerifC20Headers", dict(checks=20000, shards=1), dict(checks=150000, shards=3)),
+        gt("bytes", "asserts", "TestVerifC20Bytes", dict(checks=5000, shards=4), dict(checks=100000, shards=6)),
+        gt("limits", "asserts", "TestVerifC20Limits", dict(checks=500, shards=1), dict(checks=10000, shards=1)),
+        gt("corpus", "asserts", "TestVerifC20Corpus", dict(shards=1), dict(shards=1), rapid=False),
     ],
 )
